@@ -289,12 +289,17 @@ Mu(m) ==
                               + (CASE m.phase = "seq" -> L + 3 [] m.phase = "qual" -> 1 + m.q [] OTHER -> 0)
 
 \* --- seekable source + get_kind_seek: read_exact(1 byte), seek(Current(-1))
+\* ni = number of consecutive Err(Interrupted) answers of the source: a step that changes nothing but this
+\* counter ("no-op, retry": read_exact and read_line retry; a bare read() would give up)
+MaxIntr == 2
 SInit(b, off) == [kind |-> "seeksrc", data |-> b, pos0 |-> off, pos |-> off, phase |-> "read", byte |-> NoByte,
-                  res |-> "", done |-> FALSE]
+                  res |-> "", ni |-> 0, done |-> FALSE]
+SIntrEn(m) == ~m.done /\ m.phase = "read" /\ m.ni < MaxIntr
+SIntr(m) == [m EXCEPT !.ni = m.ni + 1]
 SReadEn(m) == ~m.done /\ m.phase = "read"
 SRead(m) ==                                   \* read_exact of one byte: UnexpectedEof leaves the position alone
     IF m.pos >= Len(m.data) THEN [m EXCEPT !.res = "eof", !.done = TRUE]
-    ELSE [m EXCEPT !.byte = m.data[m.pos + 1], !.pos = m.pos + 1, !.phase = "back"]
+    ELSE [m EXCEPT !.byte = m.data[m.pos + 1], !.pos = m.pos + 1, !.phase = "back", !.ni = 0]
 SBackEn(m) == ~m.done /\ m.phase = "back"
 SBack(m) ==                                   \* SeekFrom::Current(-1), then the decision on the byte
     [m EXCEPT !.pos = m.pos - 1, !.done = TRUE,
@@ -302,9 +307,11 @@ SBack(m) ==                                   \* SeekFrom::Current(-1), then the
 
 \* --- BufReader + read_line: why the chunking of read() is invisible
 LInit(b, cap) == [kind |-> "lines", data |-> b, cap |-> cap, pos |-> 0, buf |-> << >>, line |-> << >>,
-                  lines |-> << >>, done |-> FALSE]
+                  lines |-> << >>, ni |-> 0, done |-> FALSE]
+LIntrEn(m) == ~m.done /\ m.buf = << >> /\ m.ni < MaxIntr        \* the underlying read() answers Err(Interrupted)
+LIntr(m)   == [m EXCEPT !.ni = m.ni + 1]                         \* fill_buf fails, read_until retries: nothing else changes
 LFillEn(m, k) == ~m.done /\ m.buf = << >> /\ k >= 1 /\ k <= m.cap /\ m.pos + k <= Len(m.data)
-LFill(m, k)   == [m EXCEPT !.buf = SubSeq(m.data, m.pos + 1, m.pos + k), !.pos = m.pos + k]
+LFill(m, k)   == [m EXCEPT !.buf = SubSeq(m.data, m.pos + 1, m.pos + k), !.pos = m.pos + k, !.ni = 0]
 LScanEn(m)    == ~m.done /\ m.buf # << >>
 LScan(m) ==                                   \* read_until: memchr for LF in the buffered bytes
     LET S == {j \in 1..Len(m.buf) : m.buf[j] = LF}
